@@ -77,6 +77,9 @@ ReqInit(c) ==
     finalExcused |-> FALSE,    \* a forwarding read failed after the stop request
     fwdFailed|-> FALSE,        \* a forwarding read of this session failed (its transmit-error count is then not predicted)
     tgate    |-> FALSE,        \* the driver holds the terminator's mutex (a signal is being delivered under Serve)
+    lq       |-> 0,            \* link events certainly still queued on the subscription (they arrived between sessions)
+    lm       |-> 0,            \* link events that may still be queued (they arrived while the session was already going down)
+    linkSeen |-> FALSE,        \* this session's link watcher has had its event
     lastDialT|-> -1,           \* instant of the latest dial attempt
     nBurst   |-> 0,            \* dial attempts at that same instant, each following a session that a fault ended
     nRead    |-> 0,            \* forwarding reads on the advertiser's own paths since the last quiescent point
@@ -91,7 +94,7 @@ ReqInit(c) ==
 
 \* error classes of the harness that the Dialer re-establishes the task for (system call error other than permission,
 \* link not ready, link change); every other class ends the task
-RecClasses == {"sys", "lnr", "link"}
+RecClasses == {"sys", "lnr", "link", "unreach"}
 Flag(m, s) == [m EXCEPT !.bad = @ \cup {s}]
 Up(m) == m.k # 0
 Live(m) == Up(m) /\ m.cancelAt = -1 /\ m.faultAt = -1
@@ -113,12 +116,14 @@ OnDial(m, e) ==
       \* the back-off only separates FAILED dial attempts: when every dial succeeds and the task fails at once each time
       \* the task is re-established again and again without any delay (known finding, see known_findings.json)
       burst == IF e.t = m.lastDialT /\ m.postDone /\ m.doneCls # {} THEN m.nBurst + 1 ELSE 1
-      m0b == IF burst = 4 /\ m.cancelAt = -1 THEN Flag(m0, "c10-redial-loop-without-backoff") ELSE m0
+      m0a == IF m.postDone /\ m.doneCls = {} /\ m.cancelAt = -1 THEN Flag(m0, "c10-task-re-established-without-any-fault") ELSE m0
+      m0b == IF burst = 4 /\ m.cancelAt = -1 THEN Flag(m0a, "c10-redial-loop-without-backoff") ELSE m0a
       mp == [m0b EXCEPT !.postDone = FALSE, !.doneCls = {}, !.lastDialT = e.t, !.nBurst = burst] IN
   IF e.res # "ok" THEN mp
   ELSE LET m1 == IF Up(mp) THEN Flag(mp, "c11-dial-while-connection-open") ELSE mp IN
-       [m1 EXCEPT !.fcls = {}, !.k = e.k, !.nW = 0, !.credit = 1, !.dialT = e.t, !.lastTrig = -1, !.prevReq = -1, !.waitFirst = FALSE, !.lastMc = -1, !.owedM = {}, !.owedU = <<>>, !.pend = <<>>,
-                  !.faultAt = -1, !.reading = FALSE, !.nTO = 0, !.resumeAt = -1]
+       [m1 EXCEPT !.fcls = IF m.lq > 0 THEN {"rec"} ELSE {}, !.lq = IF @ > 0 THEN @ - 1 ELSE 0, !.linkSeen = m.lq > 0, !.k = e.k, !.nW = 0, !.credit = 1, !.dialT = e.t, !.lastTrig = -1, !.prevReq = -1, !.waitFirst = FALSE, !.lastMc = -1, !.owedM = {}, !.owedU = <<>>, !.pend = <<>>,
+                  \* a link event that was waiting on the subscription hits the new session at once
+                  !.faultAt = IF m.lq > 0 /\ m.cancelAt = -1 THEN e.t ELSE -1, !.reading = FALSE, !.nTO = 0, !.resumeAt = -1]
 
 OnDone(m, e) ==
   LET m1 == IF e.k \in m.cleaned THEN Flag(m, "c11-cleanup-twice")
@@ -126,13 +131,14 @@ OnDone(m, e) ==
             ELSE IF m.nOpen > 0 THEN Flag(m, "c10-cleanup-with-write-in-flight")
             ELSE IF m.reading /\ FALSE THEN m ELSE m IN
   [m1 EXCEPT !.cleaned = @ \cup {e.k}, !.k = 0, !.faultAt = -1, !.owedM = {}, !.owedU = <<>>,
-             !.doneCls = m.fcls, !.postDone = TRUE, !.fcls = {}]
+             !.doneCls = IF m.fcls = {} /\ m.lm > 0 THEN {"rec"} ELSE m.fcls, !.lm = IF m.fcls = {} /\ @ > 0 THEN @ - 1 ELSE @,
+             !.postDone = TRUE, !.fcls = {}]
 
 OnRCall(m, e) ==
   LET m1 == IF e.k \in m.cleaned THEN Flag(m, "c10-read-after-cleanup")
             ELSE IF m.retAt # -1 THEN Flag(m, "c08-read-after-return")
             ELSE IF m.resumeAt # -1 /\ e.t # m.resumeAt /\ m.cancelAt = -1 /\ m.faultAt = -1
-                 THEN Flag(m, "c10-receive-backoff-wrong")
+                 THEN Flag(m, "c09-c10-receive-backoff-wrong")
             ELSE m IN
   [m1 EXCEPT !.reading = TRUE, !.resumeAt = -1]
 
@@ -295,8 +301,12 @@ OnHook(m, e) ==      \* consistency-check path: the RA handed to the hook is a g
 OnCancel(m, e) == IF m.cancelAt # -1 THEN m
                   ELSE [m EXCEPT !.cancelAt = e.t, !.term = e.term,
                                  !.upAtCancel = Up(m) /\ m.faultAt = -1, !.faultAtCancel = m.faultAt # -1]
-OnLink(m, e)   == LET m1 == IF Up(m) THEN [m EXCEPT !.fcls = @ \cup {"rec"}] ELSE m IN
-                  IF Up(m) /\ m.cancelAt = -1 /\ m.faultAt = -1 THEN [m1 EXCEPT !.faultAt = e.t] ELSE m1
+\* a link event is delivered on a buffered subscription: the session's watcher takes the first one; one that arrives
+\* between sessions waits for the next session, one that arrives while the session is already going down may or may not
+OnLink(m, e)   == IF ~Up(m) THEN [m EXCEPT !.lq = IF @ < 8 THEN @ + 1 ELSE @]
+                  ELSE IF m.linkSeen \/ m.faultAt # -1 THEN [m EXCEPT !.lm = @ + 1, !.fcls = @ \cup {"rec"}]
+                  ELSE LET m1 == [m EXCEPT !.fcls = @ \cup {"rec"}, !.linkSeen = TRUE] IN
+                       IF m.cancelAt = -1 THEN [m1 EXCEPT !.faultAt = e.t] ELSE m1
 OnHold(m, e)    == [m EXCEPT !.nHeld = @ + 1, !.anyHold = TRUE]
 OnRelease(m, e) == [m EXCEPT !.nHeld = IF @ > 0 THEN @ - 1 ELSE 0]
 
